@@ -186,6 +186,54 @@ def b_special(c):
     return (lambda v: getattr(np, prim)(v)), x, {}
 
 
+# ----------------------------------------------------------------------------- reading a component of a tuple-valued result
+def b_seltuple(c):
+    la = np.linalg
+    prim = c["prim"]
+    comp, way = c["tp"][0], c["tp"][1]
+    batch, n = tuple(c["s"]), c["ia"]
+    A = data(batch + (n, n), 0.1, 1.0, 2)
+    S = A @ onp.swapaxes(A, -1, -2) + n * onp.eye(n) + onp.diag(onp.arange(n) * 0.7)
+    R = data(batch + (n, n), 0.5, 2.5, 1) + 2.0 * onp.eye(n)
+    ncomp = 3 if prim == "svd" else 2
+    if prim == "eigh":
+        call, x = (lambda v: la.eigh(_sym(v))), S
+    elif prim == "eig":
+        call, x = (lambda v: la.eig(_sym(v))), S
+    elif prim == "slogdet":
+        call, x = (lambda v: la.slogdet(v)), R
+    else:
+        call, x = (lambda v: la.svd(v, full_matrices=False)), R
+
+    def pick(res):
+        if way == 0:
+            return res[comp]
+        if way == 1:
+            return res[comp - ncomp]
+        if way == 2:
+            return res[:comp + 1][comp]
+        if way == 3:
+            parts = tuple(res) if ncomp == 3 else res
+            if ncomp == 3:
+                a0, a1, a2 = res
+                return (a0, a1, a2)[comp]
+            a0, a1 = res
+            return (a0, a1)[comp]
+        if way == 4:
+            return [e for e in res][comp]
+        return res[::-1][ncomp - 1 - comp]
+
+    def f(v):
+        r = pick(call(v))
+        # phase / sign conventions of eigenvectors and singular vectors: use a sign-invariant function of them
+        if (prim in ("eigh", "eig") and comp == 1) or (prim == "svd" and comp in (0, 2)):
+            return np.real(r) ** 2
+        if prim == "slogdet" and comp == 0:
+            return r * 1.0            # the sign: locally constant
+        return np.real(r)
+    return f, x, {}
+
+
 # ----------------------------------------------------------------------------- single precision
 def b_single(c):
     c2 = dict(c, scal="array")
@@ -991,4 +1039,4 @@ def b_helper(c):
     return f, x, {}
 
 
-BUILDERS = {"single": b_single, "empty": b_empty, "mixorder": b_mixorder, "realinto": b_realinto, "special": b_special, "extend": b_extend, "helper": b_helper, "argsweep": b_argsweep, "kink": b_kink, "linalg": b_linalg, "fft": b_fft, "index": b_index, "join": b_join, "contract": b_contract, "rearr": b_rearr, "binary": b_binary, "where": b_where, "reduce": b_reduce, "cum": b_cum, "unary": b_unary}
+BUILDERS = {"seltuple": b_seltuple, "single": b_single, "empty": b_empty, "mixorder": b_mixorder, "realinto": b_realinto, "special": b_special, "extend": b_extend, "helper": b_helper, "argsweep": b_argsweep, "kink": b_kink, "linalg": b_linalg, "fft": b_fft, "index": b_index, "join": b_join, "contract": b_contract, "rearr": b_rearr, "binary": b_binary, "where": b_where, "reduce": b_reduce, "cum": b_cum, "unary": b_unary}
